@@ -70,6 +70,13 @@ fn intrinsic(x: &[u8], h: &v1::Header<'_>, route: &str) -> Verdict {
     if printed != text {
         return fail(format!("to_string() == header text {:?}", esc(text.as_bytes())), format!("{:?}", esc(printed.as_bytes())));
     }
+    // format flags that mean nothing for text (sign, alternate form, zero flag with a width below the line's length): an
+    // implementation that writes the text, delegates to `str` or pads prints the very same line under them
+    for (spec, got) in [("{:#}", format!("{:#}", h)), ("{:+}", format!("{:+}", h)), ("{:+#}", format!("{:+#}", h)), ("{:06}", format!("{:06}", h))] {
+        if got != text {
+            return fail(format!("format!({:?}, header) == header text {:?}", spec, esc(text.as_bytes())), format!("{:?}", esc(got.as_bytes())));
+        }
+    }
     Ok(())
 }
 
